@@ -15,3 +15,11 @@ def regen_all():
             if core.write_if_changed(os.path.join(core.LEAN, "LitedramVerif", "Generated", path), text):
                 changed.append(path)
     return changed
+
+
+def _load():
+    import importlib
+    for m in ("modlib", "lpddr_tables"):
+        importlib.import_module("translators." + m)
+
+_load()
